@@ -303,6 +303,16 @@ func boundedHistories() (ok bool) {
 	other := &Evidence{}
 	_ = other.SetClaims(validSets()[2])
 	genuine, _ := other.ValidateAndSign(good)
+	badMsg := cose.NewSign1Message()
+	badMsg.Headers.Protected.SetAlgorithm(cose.AlgorithmES256)
+	badMsg.Payload = wMap([]kv{{265, wText("http://unregistered.example/profile")}, {2394, wInt(1)}})
+	if err := badMsg.Sign(rand.Reader, nil, good); err != nil {
+		panic(err)
+	}
+	badClaims, err := badMsg.MarshalCBOR()
+	if err != nil {
+		panic(err)
+	}
 	type op struct {
 		name string
 		run  func(e *Evidence) (tok []byte, err error, signs bool, decodes bool)
@@ -334,6 +344,15 @@ func boundedHistories() (ok bool) {
 			return t, err, true, false
 		}},
 		{"decode-ok", func(e *Evidence) ([]byte, error, bool, bool) { return nil, e.UnmarshalCOSE(genuine), false, true }},
+		{"vsign-attached", func(e *Evidence) ([]byte, error, bool, bool) {
+			// whatever is attached now -- nothing at all after a failed decode
+			t, err := e.ValidateAndSign(good)
+			return t, err, true, false
+		}},
+		{"decode-bad-claims", func(e *Evidence) ([]byte, error, bool, bool) {
+			// a correctly signed envelope whose payload is not a decodable claims-set (unregistered profile)
+			return nil, e.UnmarshalCOSE(badClaims), false, true
+		}},
 		{"decode-garbage", func(e *Evidence) ([]byte, error, bool, bool) {
 			return nil, e.UnmarshalCOSE([]byte{0xd2, 0x80}), false, true
 		}},
